@@ -128,6 +128,25 @@ def roundtrip_and_chunking(ctx):
                                   {'text': t, 'encoding': E, 'cuts': cuts})
                     break
                 nt.add((t, E, len(cuts)))
+            # the same with the encoding left to the detector (no encoding given): the data may stay undecided until the final call
+            try:
+                auto_oneshot = C.decode(data)[0]
+            except Exception:
+                auto_oneshot = None
+            if auto_oneshot is not None:
+                for cuts in partitions(len(data), min(full_limit, 8)):
+                    chunks = cut(data, cuts)
+                    n += 1
+                    dec = C.IncrementalDecoder()
+                    try:
+                        got = ''.join(dec.decode(c, False) for c in chunks) + dec.decode(b'', True)
+                    except Exception as e:
+                        got = f'<{type(e).__name__}: {e}>'
+                    if got != auto_oneshot:
+                        ctx.violation('bounded: IncrementalDecoder with auto-detection equals the one-shot decoder for every chunking (final call with no data)',
+                                      f'text {t!r} enc {E} cuts {cuts}: {got!r} != {auto_oneshot!r}', True, {'text': t, 'encoding': E, 'cuts': cuts, 'autodetect': True})
+                        break
+                    nt.add((t, E, 'auto', len(cuts)))
             # incremental encoder on the text
             try:
                 oneshot_b = C.encode(t, encoding=E)[0]
